@@ -43,6 +43,7 @@ type TCase struct {
 	FilterBase int       `json:"fbase,omitempty"`
 	Cache      int       `json:"cache,omitempty"` // 0 none, >0 LRU capacity
 	BufferPool bool      `json:"bpool,omitempty"`
+	ReaderAlt  bool      `json:"ralt,omitempty"` // the reader is opened with other block / restart / compression / bloom-bits / filter-base settings than the writer used
 	Probes     []gen.Hex `json:"probes,omitempty"`
 	Ranges     []TRange  `json:"ranges,omitempty"`
 	DamageOff  int       `json:"dmgoff,omitempty"` // -1: no damage; else offset (mod checksummed length)
@@ -138,6 +139,30 @@ func (c *TCase) options(tcmp comparer.Comparer) *opt.Options {
 	}
 	if c.FilterBits > 0 && !c.Internal {
 		o.Filter = filter.NewBloomFilter(c.FilterBits)
+	}
+	return o
+}
+
+// readerOptions: a table describes itself (restart points and the filter base are stored in the blocks, the
+// compression kind in every block trailer, the bloom probe count in the filter data), so a reader whose options
+// differ from the writer's in everything but the comparer and the filter's name must answer identically.
+func (c *TCase) readerOptions(tcmp comparer.Comparer) *opt.Options {
+	o := c.options(tcmp)
+	if !c.ReaderAlt {
+		return o
+	}
+	o.BlockSize, o.BlockRestartInterval, o.FilterBaseLg = 4096-c.BlockSize, 17-c.Restart%16, 16-c.FilterBase
+	if !c.NoComp {
+		o.Compression = opt.NoCompression
+	} else {
+		o.Compression = opt.DefaultCompression
+	}
+	if o.Filter != nil {
+		bits := map[int]int{1: 64, 10: 20, 64: 6}[c.FilterBits]
+		if bits == 0 {
+			bits = 30
+		}
+		o.Filter = filter.NewBloomFilter(bits)
 	}
 	return o
 }
@@ -266,7 +291,8 @@ func runTable(c *TCase) (st tStats, err error) {
 		st.restartsMax = (len(kvs)/st.blocks + ri - 1) / ri
 	}
 
-	tr, err := openTable(c, data, o)
+	ro := c.readerOptions(tcmp)
+	tr, err := openTable(c, data, ro)
 	if err != nil {
 		return st, fmt.Errorf("NewReader on an undamaged table: %v", err)
 	}
@@ -440,7 +466,7 @@ func runTable(c *TCase) (st tStats, err error) {
 		d := append([]byte{}, data...)
 		off := c.DamageOff % (len(data) - 48)
 		d[off] ^= byte(c.DamageXor)
-		tr, err := openTable(c, d, o)
+		tr, err := openTable(c, d, ro)
 		if err != nil {
 			if !errors.IsCorrupted(err) {
 				return st, fmt.Errorf("damaged table: NewReader returned a non-corruption error: %v", err)
@@ -534,6 +560,7 @@ func drawTCase(t *rapid.T) *TCase {
 	c.FilterBase = rapid.SampledFrom([]int{0, 5, 6, 8, 11, 14}).Draw(t, "fbase")
 	c.Cache = rapid.SampledFrom([]int{0, 0, 1, 4096, 1 << 20}).Draw(t, "cache")
 	c.BufferPool = rapid.Bool().Draw(t, "bpool")
+	c.ReaderAlt = rapid.IntRange(0, 2).Draw(t, "ralt") == 0
 	np := rapid.IntRange(2, 12).Draw(t, "np")
 	c.Probes = gen.DrawKeyPool(t, np, np+4)
 	if c.SeqN > 0 {
@@ -558,7 +585,7 @@ func drawTCase(t *rapid.T) *TCase {
 		r.Walk = dbm.DrawWalk(t, npr, 40)
 		return r
 	})
-	c.Ranges = rapid.SliceOfN(rg, 0, 4).Draw(t, "ranges")
+	c.Ranges = rapid.SliceOfN(rg, 1, 5).Draw(t, "ranges")
 	if rapid.IntRange(0, 2).Draw(t, "dmg") == 0 {
 		c.DamageOff = -1
 	} else {
@@ -579,6 +606,7 @@ func tClassify(c *TCase, st tStats) (bool, []string) {
 	add(st.entries == 1, "single-entry")
 	add(st.blocks >= 2, "blocks>=2")
 	add(st.restartsMax >= 2, "restarts>=2")
+	add(c.ReaderAlt, "reader-options-differ-from-writer")
 	add(st.innerRange, "inner-range")
 	add(st.reversal, "reversal")
 	add(c.Internal, "internal-comparer")
